@@ -3,7 +3,9 @@ use crate::c11::{all_subs, run_for};
 use crate::engine::*;
 
 pub fn subs() -> Vec<Box<dyn DynSub>> {
-  all_subs("C12").into_iter().map(|s| Box::new(s) as Box<dyn DynSub>).collect()
+  let mut v: Vec<Box<dyn DynSub>> = all_subs("C12").into_iter().map(|s| Box::new(s) as Box<dyn DynSub>).collect();
+  v.push(Box::new(crate::c11::ClockCrossing { pid: "C12" }));
+  v
 }
 
 pub fn run(ctx: &Ctx) -> EvidenceMeta {
